@@ -175,6 +175,20 @@ def install(state: SimPoolState) -> None:
         popmod.ProcessPoolExecutor = SimPool
     cf.as_completed = _sim_as_completed
     cf.wait = _sim_wait
+    # names bound with `from concurrent.futures import ...` inside any loaded swcgeom module: the real
+    # as_completed()/wait() would block for ever on futures that no background thread completes
+    import sys
+
+    swapped = []
+    for name, mod in list(sys.modules.items()):
+        if mod is None or not (name == "swcgeom" or name.startswith("swcgeom.")):
+            continue
+        for attr, real_key, sim in (("ProcessPoolExecutor", "cf.PPE", SimPool), ("as_completed", "as_completed", _sim_as_completed),
+                                    ("wait", "wait", _sim_wait)):
+            if getattr(mod, attr, None) is _REAL[real_key]:
+                setattr(mod, attr, sim)
+                swapped.append((mod, attr, _REAL[real_key]))
+    _REAL["swapped"] = swapped
     try:
         import tqdm
 
@@ -189,6 +203,8 @@ def uninstall() -> None:
     import swcgeom.core.population as popmod
 
     if "cf.PPE" in _REAL:
+        for mod, attr, real in _REAL.get("swapped", []):
+            setattr(mod, attr, real)
         cf.ProcessPoolExecutor = _REAL["cf.PPE"]
         if _REAL["pop.PPE"] is not None:
             popmod.ProcessPoolExecutor = _REAL["pop.PPE"]
